@@ -1,0 +1,5 @@
+//go:build !verif
+
+package database
+
+func verifPoint(name string) {}
